@@ -84,6 +84,12 @@ func c17Units(tier string) []Unit {
 			Alphabet: robj.ops(), Depth: depth, Budget: explore.Budget{Provides: 2, Decorates: 1, Invokes: 2, Rejected: 1}, Allowed: onceEach,
 			Monitors: []explore.Monitor{dryMonitor},
 		}})
+		recov := alpha{scopes: []int{0, 1}, ctors: []*uFunc{pA, pB, fG1}, decos: []*uFunc{dA, dAB, dG}, invokes: []*uFunc{iA, iB, iG}}
+		units = append(units, Unit{Sc: &Scenario{
+			Name: fmt.Sprintf("dry/recover-from-panics/defer=%v", def), Cfg: h.Config{Dry: true, Defer: def, Recover: true}, Prefix: prefixChild,
+			Alphabet: recov.ops(), Depth: depth, Budget: explore.Budget{Provides: 2, Decorates: 1, Invokes: 2, Rejected: 1}, Allowed: onceEach,
+			Monitors: []explore.Monitor{dryMonitor},
+		}})
 		as := alpha{scopes: []int{0, 1}, ctors: []*uFunc{kAasI, kAasII, kIplain, pCia}, export: true, decos: []*uFunc{dIA}, invokes: []*uFunc{qI, qII, qIn, iC}}
 		units = append(units, Unit{Sc: &Scenario{
 			Name: fmt.Sprintf("dry/as/defer=%v", def), Cfg: h.Config{Dry: true, Defer: def}, Prefix: prefixChild,
